@@ -1,7 +1,5 @@
 //@ variant: tcp TU=libxcm/tp/tcp/xcm_tp_tcp.c DEFS=-DXF_TCP P=tcp
 //@ variant: tls TU=libxcm/tp/tls/xcm_tp_tls.c DEFS=-DXF_TLS P=tls
-//@ variant: tcp-nr TU=libxcm/tp/tcp/xcm_tp_tcp.c DEFS=-DXF_TCP_-DXV_NR P=tcp
-//@ variant: tls-nr TU=libxcm/tp/tls/xcm_tp_tls.c DEFS=-DXF_TLS_-DXV_NR P=tls
 //@ tu: $TU
 //@ defs: $DEFS
 //@ loops: framing.loops
